@@ -676,8 +676,11 @@ void QXmppTransferOutgoingJob::_q_sendData()
         return;
     }
 
-    // check whether we have written the whole file
-    if (d->fileInfo.size() && d->done >= d->fileInfo.size()) {
+    // check whether we have written the whole file (without an announced size,
+    // e.g. for an empty file, the end of a random-access device tells)
+    const bool allRead = d->fileInfo.size() ? d->done >= d->fileInfo.size()
+                                            : (!d->iodevice->isSequential() && d->iodevice->atEnd());
+    if (allRead) {
         if (!d->socksSocket->bytesToWrite()) {
             terminate(QXmppTransferJob::NoError);
         }
